@@ -14,7 +14,7 @@ Section Cert.
 
   Definition trunc_block (c : cfg) (r : nat) : P unit := xbind (loc (trunc_f c r)) (fun fb => trunc_go c r (c_spin c) fb).
 
-  Inductive Sp : forall {R}, @dprog Dhp.G ev R -> Prop :=
+  Inductive Sp : forall {Y}, P Y -> Prop :=
   | Sp_hp_extend c r : f = FHp -> Sp (hp_extend c r)
   | Sp_hp_clear c r det : f = FHp -> qE f det -> Sp (hp_clear c r det)
   | Sp_rt_init c r : f = FRt -> Sp (rt_init c r)
@@ -22,19 +22,18 @@ Section Cert.
   | Sp_rt_extend c r : f = FRt -> Sp (rt_extend c r)
   | Sp_trunc c r : f = FRt -> Sp (trunc_block c r).
 
-  Inductive PC : forall {R}, @dprog Dhp.G ev R -> Prop :=
-  | PC_ret R (r : R) : PC (DRet r)
-  | PC_emit R es (k : @dprog Dhp.G ev R) : qE f es -> PC k -> PC (DEmit es k)
-  | PC_loc R X (fn : Dhp.G -> Dhp.G * X) (k : X -> @dprog Dhp.G ev R) : (forall g, qG f g (fst (fn g))) -> (forall x, PC (k x)) -> PC (DLoc fn k)
-  | PC_act R X (fa : Dhp.A X) (k : X -> @dprog Dhp.G ev R) :
+  (** programs of type [P Y]: the result [None] means "out of fuel" and ends the thread *)
+  Inductive PC : forall {Y}, P Y -> Prop :=
+  | PC_ret Y (r : option Y) : PC (DRet r)
+  | PC_emit Y es (k : P Y) : qE f es -> PC k -> PC (DEmit es k)
+  | PC_loc Y X (fn : Dhp.G -> Dhp.G * X) (k : X -> P Y) : (forall g, qG f g (fst (fn g))) -> (forall x, PC (k x)) -> PC (DLoc fn k)
+  | PC_act Y X (fa : Dhp.A X) (k : X -> P Y) :
       (forall g, qG f g (fst (fst (fa g))) /\ qE f (snd (fa g))) -> (forall x, PC (k x)) -> PC (DAct fa k)
-  | PC_bind X R (p : @dprog Dhp.G ev X) (q : X -> @dprog Dhp.G ev R) : PC p -> (forall x, PC (q x)) -> PC (dbind p q)
-  | PC_sp R (p : @dprog Dhp.G ev R) : Sp p -> PC p.
+  | PC_xbind X Y (p : P X) (q : X -> P Y) : PC p -> (forall x, PC (q x)) -> PC (xbind p q)
+  | PC_sp Y (p : P Y) : Sp p -> PC p.
 
   Definition QAc {X} (a : Dhp.A X) : Prop := forall g, qG f g (fst (fst (a g))) /\ qE f (snd (a g)).
 
-  Lemma PC_xbind {X Y} (p : P X) (q : X -> P Y) : PC p -> (forall x, PC (q x)) -> PC (xbind p q).
-  Proof. intros Hp Hq. unfold xbind. apply PC_bind; auto. intros [x|]; [apply Hq|apply PC_ret]. Qed.
   Lemma PC_ret' {X} (x : X) : PC (ret x). Proof. apply PC_ret. Qed.
   Lemma PC_act' {X} (a : Dhp.A X) : QAc a -> PC (act a). Proof. intros H. unfold act. apply PC_act; auto. intros x. apply PC_ret. Qed.
   Lemma PC_loc' {X} (fn : Dhp.G -> Dhp.G * X) : (forall g, qG f g (fst (fn g))) -> PC (loc fn).
